@@ -239,6 +239,7 @@ def benign(defn, fvs, skip):
 
 
 class Other:
+    ALWAYS_TRUE = True        # a Python object of this kind is truthy (no __bool__ / __len__)
     def __repr__(self):
         return '<some other object>'
 
